@@ -60,6 +60,25 @@ CHECKS.update({
                 text="For every chain the monitor requires: success exactly when the chain can deliver the object, then every byte exactly once and in order; otherwise the handler's translated error or a validation failure of the stitched stream, with what was delivered being a prefix of the object; OnError called exactly once per underlying error; Done called exactly once."),
 })
 
+_C_NOTE = "Trusted: TLC; the harness's model back ends (sets of objects with a per-call fault plan, recording every call). Contract layer decides; design-layer deviations are reported as DRIFT only."
+CHECKS.update({
+    "C10": dict(level="model_checking", design_ref="DESIGN.md 4/C10, 10", note=_STORE_NOTE + " Instance names: a chain root < a < a/b plus an unrelated sibling; grants are the instance-name sets at which an object's content was validated.",
+                technique="TLA+ design spec HierStore.tla (per-instance index entries over shared blocks, lookups along the ancestor chain, refresh re-registering under the instance found, grant only after validation) model-checked with TLC (PropVisibility, NoWidening, EntriesIntact; design mutants refresh_root / grant_without_validation / grant_at_alloc killed); simulated behaviours and mutant counterexamples replayed on the real hierarchicalCASBlobAccess under the cooperative scheduler, seeded random runs; every trace validated by TLC against StoreContractTrace.tla (clause C10)",
+                text="Design: an object is visible under an instance name exactly if it was uploaded (and validated) under that name or one of its ancestors (prefix chain) and is still retained; refresh never widens visibility; a failed or corrupt upload grants nothing. Real code: completions are compared with the design (zero drift) and the monitor checks every Get / FindMissing result against the set of instance names granted so far and the retention window."),
+    "C11": dict(level="model_checking", design_ref="DESIGN.md 4/C11, 10", note=_C_NOTE + " Two objects, every placement, plans failing the 1st or 2nd call on a replica; a second battery uses two real local stores as replicas.",
+                technique="TLA+ design spec Mirrored.tla (round-robin first replica, repair through the replicator, parallel Put / FindMissing, error naming) model-checked with TLC against MirrorDefs.tla; all two-operation behaviours from every placement enumerated, longer ones simulated, mutant counterexamples added; all replayed on the real mirroredBlobAccess over model back ends and over two real local stores; every observation validated by TLC against MirrorContractTrace.tla",
+                text="Monitor: a successful upload is in both replicas; a read returns the object whenever a replica holds it and no replica failed, and then the replica consulted first holds it; FindMissing reports missing exactly the objects both lack and has copied the one-sided ones; any replica failure other than NOT_FOUND yields an error that names the replica and is not NOT_FOUND; nothing is ever removed from a replica."),
+    "C17": dict(level="model_checking", design_ref="DESIGN.md 4/C17, 10", note=_C_NOTE + " Read-through: 2 objects, all placements, <=5 operations; replicator decorators: exhaustive protocol model for 3-4 callers, real code under 400 (quick) / 20000 (thorough) seeded cooperative schedules with failures and cancellations plus free-running runs; existence cache: sizes 1-3, durations 1-2, LRU/FIFO compared to the design, random replacement against the contract only.",
+                technique="TLA+ design specs ReadThrough.tla (caching / fallback with single-shot selector), Replicators.tla (in-flight map, leader / waiter retry, concurrency limit; safety + termination under fairness) and ExistenceCache.tla (insertion times, LRU/FIFO order, virtual clock, back end changing behind the cache) model-checked with TLC, design mutants killed; TLC-generated scripts replayed on the real readcaching / readfallback / existenceCaching composites, seeded schedules of concurrent callers on the real deduplicating / concurrency-limiting / queued replicators over a recording gated base replicator; every observation validated by TLC against ReadThroughContractTrace.tla",
+                text="Monitor: (a) without back-end failures a read returns the object iff fast/primary or slow/secondary holds it, uploads reach only the slow resp. primary back end, reads never write to the slow/secondary one, a successful read-through with a copying replicator leaves the object in the fast/primary back end, fallback FindMissing reports exactly the objects missing from both; with failures any answer given must still be right. (b) never two concurrent copies of one object behind the deduplicating decorator, never more concurrent copies than the limit, success only if every object was confirmed in or copied to the sink after the caller asked, no panic, nobody left waiting. (c) an object is answered from the existence cache only if the back end reported it present at most the configured duration ago; whatever the back end is asked is answered with the back end's own answer."),
+    "C18": dict(level="model_checking", design_ref="DESIGN.md 4/C18, 10", note=_C_NOTE + " Authorizer trees of depth <= 1 (quick) / 2 (thorough) over two instance names; static allow/deny tables and a failing member.",
+                technique="TLA+ spec Authorizing.tla: the state space is the list of (authorizer tree, operation, instance names) cases; TLC checks the any-authorizer algebra and emits the cases; each case executed on the real authorizingBlobAccess + NewAnyAuthorizer over a recording back end; every observation validated by TLC against AuthContractTrace.tla",
+                text="Monitor: the back end is called only when the responsible authorizer (get / put / findMissing) allows the instance name; a denied or failed authorization yields PermissionDenied resp. the authorizer's error with no back-end call and, for uploads, a released buffer; allowed operations are forwarded unchanged; 'any' allows iff some member allows and fails only if none allows and one failed."),
+    "C19": dict(level="model_checking", design_ref="DESIGN.md 4/C19, 10", note=_C_NOTE + " Instance names over the components {a, ab} up to depth 2.",
+                technique="TLA+ spec Routing.tla: the state space is the list of (prefix table, instance name, operation) cases for the instance-name trie, the demultiplexing composite and ancestor chains; TLC checks sanity properties and emits the cases; each executed on the real InstanceNameTrie / demultiplexingBlobAccess / hierarchical instance-name helpers; every observation validated by TLC against RoutingContractTrace.tla",
+                text="Monitor: the longest matching component-wise prefix wins (never a string prefix that is not a component prefix), the instance name is rewritten by replacing exactly that prefix, digests keep hash and size, errors carry the back end name, unmatched names yield InvalidArgument without any back-end call, FindMissing is partitioned per back end and reunited."),
+})
+
 REASON_WIP = "check not built yet in this round (work in progress; see DESIGN.md section 10 for status)"
 
 
